@@ -18,7 +18,7 @@ Task: change the gateway's source in your worktree so that this property is BROK
  (c) the breakage needs something SPECIFIC to manifest - a particular interleaving of concurrent requests, a crash or fault at a particular point, a multi-step sequence of operations, an unusual input, or two cooperating code sites that each look fine alone - NOT something that ordinary use (a plain put/get/list of a normal object) would expose at once.
 It should look like a plausible mistake, "optimisation" or refactoring a maintainer could make; keep it small (ideally < 30 changed lines), in non-test code. Do not touch the package internal/verifhook, and leave every existing `verifhook.Point(...)` line where it is (they are inert instrumentation points). {hint}
 
-Also write a DEMONSTRATION: a Go test file or a small program/script that FAILS (non-zero exit) on your changed tree and PASSES on the unchanged tree, runnable with one shell command from the worktree root. It may start the real gateway (build: `go build -o /tmp/seed-{ID}-vgw ./cmd/versitygw`; run: `ROOT_ACCESS_KEY=ak ROOT_SECRET_KEY=sk /tmp/seed-{ID}-vgw --port 127.0.0.1:<port> --iam-dir <dir> --quiet posix [--versioning-dir <d>] [--sidecar <d>] [--disableotmp] [--chuid --chgid] <rootdir>`; the admin API (PATCH /create-user etc., XML bodies) is on the same port; `--readonly` and `--event-webhook-url <url>` are global flags before `posix`; tmpfs /dev/shm supports xattrs) and talk to it with the aws-sdk-go-v2 S3 client that is already a dependency of the module (custom endpoint, path style, static credentials, region us-east-1), or it may call exported functions directly. Pick free ports (bind 127.0.0.1:0), keep scratch data under /tmp/seed-{ID}-data, kill every process you start, make the demo deterministic (no flaky timing: if it needs an interleaving, force it, e.g. with a very large body, a FIFO, or by calling the racing functions directly).
+Also write a DEMONSTRATION: a Go test file or a small program/script that FAILS (non-zero exit) on your changed tree and PASSES on the unchanged tree, runnable with one shell command from the worktree root. It may start the real gateway (build: `go build -o /tmp/seed-{ID}-vgw ./cmd/versitygw`; run: `ROOT_ACCESS_KEY=ak ROOT_SECRET_KEY=sk /tmp/seed-{ID}-vgw --port 127.0.0.1:<port> --iam-dir <dir> --quiet posix [--versioning-dir <d>] [--sidecar <d>] [--disableotmp] [--chuid --chgid] <rootdir>`; the admin API (PATCH /create-user etc., XML bodies) is on the same port; `--readonly` and `--event-webhook-url <url>` are global flags before `posix`; tmpfs /dev/shm supports xattrs) and talk to it with the aws-sdk-go-v2 S3 client that is already a dependency of the module (custom endpoint, path style, static credentials, region us-east-1), or it may call exported functions directly. Pick free ports (bind 127.0.0.1:0), keep scratch data under /tmp/seed-{ID}-data, kill every process you start, make the demo deterministic (no flaky timing: if it needs an interleaving or a crash at a particular step, force it - the repository has inert instrumentation points that become active when the gateway is built with `-tags verif`: read the doc comment of /repo/internal/verifhook/hook_on.go (environment variables that log, delay, block or SIGKILL the process at a named point; `grep -rn verifhook.Point` lists the points) - or use a very large body, a FIFO, or call the racing functions directly).
 
 Deliver in /tmp/seed-{ID}-out/ :
   patch.diff   = `git diff` of the SOURCE change only (not the demo files)
